@@ -29,9 +29,14 @@ fn same_access(a: &Access, s: &SAccess) -> bool {
     }
 }
 
+/// hand the extractor's fact about the helper symbol-name templates to the stub module (see clif-core: Name)
+pub fn init_names() { unsafe { clif_core::NAME_TEMPLATES_AGREE = crate::HELPER_NAME_TEMPLATES_AGREE; } }
+/// harnesses that register no helper never compare two names: keep the cheap path whatever the templates are
+pub fn init_names_unused() { unsafe { clif_core::NAME_TEMPLATES_AGREE = true; } }
+
 pub fn run_clif(opc: u8) {
     crate::arith::reset();
-    unsafe { clif_core::NAME_TEMPLATES_AGREE = crate::HELPER_NAME_TEMPLATES_AGREE; }
+    if opc == OP_CALL { init_names(); } else { init_names_unused(); }
     unsafe { clif_core::ARITH = clif_core::Arith { mul64: crate::arith::mul64, div64: crate::arith::div64, rem64: crate::arith::rem64, mul32: crate::arith::mul32, div32: crate::arith::div32, rem32: crate::arith::rem32 }; }
     let insn = ebpf::Insn { opc, dst: kani::any(), src: kani::any(), off: kani::any(), imm: kani::any() };
     let si = SInsn { opc, dst: insn.dst, src: insn.src, off: insn.off, imm: insn.imm };
@@ -179,6 +184,7 @@ pub fn run_clif(opc: u8) {
 #[kani::proof]
 #[kani::unwind(14)]
 fn clif_prelude() {
+    init_names_unused();
     let exit = ebpf::Insn { opc: 0x95, dst: 0, src: 0, off: 0, imm: 0 };
     let prog = exit.to_array();
     let mut init = [0u64; 24];
@@ -212,6 +218,7 @@ fn clif_prelude() {
 #[kani::proof]
 #[kani::unwind(14)]
 fn clif_prepare_jump_blocks() {
+    init_names_unused();
     let opc: u8 = kani::any();
     kani::assume(is_jump(opc) || opc == OP_EXIT);
     let insn = ebpf::Insn { opc, dst: kani::any(), src: kani::any(), off: kani::any(), imm: kani::any() };
